@@ -98,9 +98,20 @@ func (v version) install() (uninstall func(), problem interface{}) {
 			errors.RegisterTypeMigration(mig.Pkg, m.prev, m.to)
 		}
 		if v.native != nil {
+			// registered in the documented order: after the migrations, under GetTypeKey(new type).
+			// The leaf type has a custom encoder whose wire message differs from Error() and whose
+			// payload the decoder insists on.
 			k := errors.GetTypeKey(v.native)
 			nat := v.native
-			errors.RegisterLeafDecoder(k, func(context.Context, string, []string, proto.Message) error { return nat })
+			errors.RegisterLeafEncoder(k, func(context.Context, error) (string, []string, proto.Message) {
+				return "wire-msg", []string{"safe-detail"}, &errorspb.StringPayload{Msg: "payload"}
+			})
+			errors.RegisterLeafDecoder(k, func(_ context.Context, _ string, _ []string, p proto.Message) error {
+				if sp, ok := p.(*errorspb.StringPayload); !ok || sp.Msg != "payload" {
+					return nil
+				}
+				return nat
+			})
 			lk = append(lk, k)
 		}
 		if v.mkWrap != nil {
@@ -113,6 +124,7 @@ func (v version) install() (uninstall func(), problem interface{}) {
 	return func() {
 		for _, k := range lk {
 			errors.RegisterLeafDecoder(k, nil)
+			errors.RegisterLeafEncoder(k, nil)
 		}
 		for _, k := range wk {
 			errors.RegisterWrapperDecoder(k, nil)
